@@ -19,6 +19,7 @@ import json
 import os
 import random
 import re
+import shutil
 
 import lib
 
@@ -299,9 +300,21 @@ def go_side(ctx, scheds_by_id, results):
 
 
 def run(ctx):
+    try:
+        _run(ctx)
+    except lib.Inconclusive:
+        raise
+    except Exception as e:  # infrastructure trouble (vanished build dir, unreadable file ...) is never a verdict
+        import traceback
+        traceback.print_exc()
+        raise lib.Inconclusive("check infrastructure failed: %r" % (e,))
+
+
+def _run(ctx):
     load_fragment_findings(ctx)
     rng = random.Random(ctx.seed)
-    binary = ctx.build("wsmux")
+    # other agents remove /verif/.build-* while testing their mutants: keep a private copy of the binary
+    binary = shutil.copy(ctx.build("wsmux"), ctx.path("wsmux-bin"))
     quick = ctx.quick()
 
     # ---- replay of a stored counterexample ----------------------------------------------------------
